@@ -20,6 +20,11 @@ CHECKS = {
         technique="property-based testing (Hypothesis) with exhaustive enumeration of single faults (class x attribute occurrence x instance position) per generated conforming population; oracle: severity/exit status threshold + confinement against the generator's model",
         text="Every applicable single fault of the statement's classes is applied in turn at every instance/part/attribute position of generated conforming populations; the real reader must end with severity <= INCOMPLETE and p21read must exit non-zero, and every other instance (not referring to the faulted one) must still serialise to its model value.",
         note="Faults are generated only where the result is certainly outside ISO 10303-21 or the schema (table WRONG in lib/checks/c03.py). For unterminated records confinement is asserted only for earlier instances. Open finding F46 (recovery not string aware) is excluded by construction (strings without delimiters in the main campaign, probes with them). Layout noise is white space only."),
+    "C07": dict(
+        level="exploration", ref="DESIGN.md section 4 C07",
+        technique="property-based testing: grammar-directed EXPRESS generator (lib/explang.py, Hypothesis) x exppp option sets; oracle = independent tokenizer + declaration splitter + Pratt expression parser (lib/exptok.py, lib/expparse.py): output accepted by check-express, declaration maps equal in canonical fully parenthesised form (two-sided), reprint token-stable, token streams equal across line lengths",
+        text="Generated schemas (every operator, literal kind, statement kind, repetition initialisers, QUERY, labelled and unlabelled rules, remarks, multi-schema USE/REFERENCE) and the shipped schemas are pretty-printed with several -l/-t/-c settings; the output must be accepted by check-express, must declare exactly the same declarations with token-for-token the same expressions and statements up to redundant parentheses and literal splitting (compared through an independent ISO 10303-11 parser), and printing the output again must change nothing but white space.",
+        note="Neutral normalisations are listed with their ISO 10303-11 clause in lib/expparse.py (class Norm). Open findings F60 (AND/ANDOR precedence in the grammar), F61 (renamed import printed under the original name), F62 (f printed as f(  )) are excluded by construction via explang's `avoid` features and probed with hand-written shapes."),
     "C08": dict(
         level="exploration", ref="DESIGN.md section 4 C08",
         technique="property-based testing (Hypothesis-generated inheritance graphs and supertype expressions) with exhaustive enumeration of all 2^n-1 entity subsets per graph x two part orders; oracle = two independent legality predicates (lib/expmodel.legal_set and the constructive ISO 10303-11 Annex B enumeration in lib/complexref.py) that must agree",
